@@ -32,7 +32,9 @@ def gen_ops(rng, thorough, with_reload=True):
             elif e < 0.3: f["expires"] = rng.choice([now + 100000, time.strftime("%Y-%m-%dT%H:%M:%SZ", time.gmtime(now + 100000))])
             ops.append({"op": "addFact", "id": i if rng.random() < 0.85 else "", "fact": f})
         elif r < 0.45:
-            rule = {"when": {"pattern": {"go": "?x"}}, "action": A}
+            # rules differ in pattern, bindings and result, so that a replaced rule that lingers anywhere is visible in the next dispatch
+            v = rng.choice([1, 2, "a", "b"])
+            rule = {"when": {"pattern": {rng.choice(["go", "k"]): rng.choice(["?x", "?y"])}}, "action": {"code": "(%s)" % json.dumps(v), "verif_tmpl": {"t": "lit", "v": v}}}
             if rng.random() < 0.3: rule["ttl"] = rng.choice([100000, "1000s"])
             if rng.random() < 0.2: rule["deleteWith"] = [rng.choice(IDS)]
             ops.append({"op": "addRule", "id": rng.choice(["r1", "r2"]), "rule": rule})
@@ -42,6 +44,7 @@ def gen_ops(rng, thorough, with_reload=True):
         elif r < 0.78: ops.append({"op": "setParents", "parents": rng.choice([["p"], [], ["p", "q"]])})
         elif r < 0.82: ops.append({"op": "addFact", "id": "", "fact": {"id": i, "!tag": rng.choice(["t", 1])}})
         elif r < 0.84: ops.append({"op": "clear"})
+        elif r < 0.92: ops.append({"op": "event", "event": {"go": rng.choice([1, "x"]), "k": 1}})
         elif with_reload:
             ops += observe(rng); ops.append({"op": "reload"}); ops += observe(rng)
     if with_reload:
